@@ -1443,8 +1443,10 @@ func (c *Conn) executeQuery(ctx context.Context, qry *Query) *Iter {
 			}
 		}
 
-		if len(values) != info.request.actualColCount {
-			return &Iter{err: fmt.Errorf("gocql: expected %d values send got %d", info.request.actualColCount, len(values))}
+		// one value per bind marker: a tuple marker takes one (tuple) value, so this is
+		// the number of columns, not actualColCount which counts tuple elements
+		if len(values) != len(info.request.columns) {
+			return &Iter{err: fmt.Errorf("gocql: expected %d values send got %d", len(info.request.columns), len(values))}
 		}
 
 		params.values = make([]queryValues, len(values))
@@ -1648,16 +1650,17 @@ func (c *Conn) executeBatch(ctx context.Context, batch *Batch) *Iter {
 				}
 			}
 
-			if len(values) != info.request.actualColCount {
-				return &Iter{err: fmt.Errorf("gocql: batch statement %d expected %d values send got %d", i, info.request.actualColCount, len(values))}
+			// one value per bind marker, see executeQuery
+			if len(values) != len(info.request.columns) {
+				return &Iter{err: fmt.Errorf("gocql: batch statement %d expected %d values send got %d", i, len(info.request.columns), len(values))}
 			}
 
 			b.preparedID = info.id
 			stmts[string(info.id)] = entry.Stmt
 
-			b.values = make([]queryValues, info.request.actualColCount)
+			b.values = make([]queryValues, len(values))
 
-			for j := 0; j < info.request.actualColCount; j++ {
+			for j := 0; j < len(values); j++ {
 				v := &b.values[j]
 				value := values[j]
 				typ := info.request.columns[j].TypeInfo
